@@ -15,6 +15,9 @@ import traceback
 
 
 def _reexec_if_needed():
+    # (LC_ALL=C with Python's default locale coercion, i.e. text files
+    # opened without an explicit encoding are still UTF-8: a true ASCII
+    # locale is outside what the properties quantify over - see DESIGN 9)
     want = {"PYTHONHASHSEED": "0", "LC_ALL": "C", "LANG": "C",
             "OMP_NUM_THREADS": "1", "OPENBLAS_NUM_THREADS": "1",
             "MKL_NUM_THREADS": "1", "PYTHONDONTWRITEBYTECODE": "1"}
